@@ -574,6 +574,13 @@ class Flow:
                 n = self.generic_visit(n)
                 if any(isinstance(a, ast.Starred) for a in n.args):
                     n.args = self._splice(n.args)
+                # np.asarray(E) / np.asanyarray(E) (no dtype): the same numbers in the same places
+                if isinstance(n.func, ast.Attribute) and n.func.attr in ("asarray", "asanyarray") and isinstance(n.func.value, ast.Name) and n.func.value.id in ("np", "numpy") \
+                        and len(n.args) == 1 and (not n.keywords or (len(n.keywords) == 1 and n.keywords[0].arg == "dtype" and (
+                            (isinstance(n.keywords[0].value, ast.Name) and n.keywords[0].value.id == "float") or
+                            (isinstance(n.keywords[0].value, ast.Attribute) and n.keywords[0].value.attr in ("float64", "float_")) or
+                            (isinstance(n.keywords[0].value, ast.Constant) and n.keywords[0].value.value in ("float", "float64"))))):
+                    return n.args[0]
                 # int(E) of a value that is an integer already, float(E) of a value that is a number already: the value itself
                 if isinstance(n.func, ast.Name) and n.func.id in ("int", "float") and len(n.args) == 1 and not n.keywords:
                     if (n.func.id == "int" and _int_like(n.args[0])) or (n.func.id == "float" and _number_like(n.args[0])):
